@@ -358,6 +358,21 @@ def _literal_len_bound(atom, pol, pname):
     return 0
 
 
+def _cval(t):
+    """Value of a constant integer expression (`SECRET_KEY_BYTES + 1` in its checked form included), else None."""
+    c = B._const_int(t)
+    if c is not None:
+        return c
+    try:
+        from .flow import eval_int
+
+        if any(x.op in ("param", "call", "mutcall", "loop", "phi") for x in subterms(t)):
+            return None
+        return eval_int(strip_sites(t), {})[0]
+    except Exception:
+        return None
+
+
 def len_at_least(lits, pname, k):
     """Do the literals imply len(param) >= k ?"""
     if any(_literal_len_bound(atom, pol, pname) >= k for atom, pol in lits):
@@ -386,7 +401,7 @@ def len_at_least(lits, pname, k):
             op = _FLIP[op]
         if not _is_len_of(a, pname):
             continue
-        c = B._const_int(b)
+        c = _cval(b)
         if c is None:
             continue
         if op == "Ge" and c >= k:
